@@ -22,7 +22,7 @@ Theorem C41_rotation : forall c tr s t, 0 < nad c -> dreach c tr s ->
   (forall a dl i0 tried at_, tp s t = TDone (XErr a) dl i0 tried at_ ->
      tried = rot c i0 (nad c) /\ a = addr_of c i0 (nad c - 1)) /\
   match tp s t with
-  | TLoop _ i0 k tried | TSem _ i0 k tried | TSemWait _ i0 k tried | TConn _ i0 k tried => k < nad c /\ tried = rot c i0 k
+  | TLoop _ i0 k tried | TSem _ i0 k tried | TSemWait _ i0 k tried | TConn _ _ i0 k tried => k < nad c /\ tried = rot c i0 k
   | TDone _ _ i0 tried _ => exists k, k <= nad c /\ tried = rot c i0 k
   | _ => True
   end.
@@ -60,15 +60,24 @@ Example C41_ex_rotation_at_wrap :
    end).
 Proof. split; [exact rot_at_wrap_example|exact wrap_witness_fixed]. Qed.
 
+(* the connect of every attempt runs under a context that expires exactly at the deadline of its DIAL (computed once, when
+   Dial was called) — however long the attempt waited for the semaphore first.  (A context built from the remaining time as
+   measured at the top of tryDial would expire up to one semaphore wait later.) *)
+Theorem C41_connect_deadline : forall c tr s t dl cdl i0 k tried,
+  0 < nad c -> dreach c tr s -> tp s t = TConn dl cdl i0 k tried -> cdl = dl.
+Proof. exact connect_deadline_is_dial_deadline. Qed.
+Print Assumptions C41_connect_deadline.
+
 (* ErrDialTimeout is never returned before the deadline and names an address of the rotation; once the deadline has
-   passed, a dial that has not returned can return ErrDialTimeout(upstream) by at most two of its own steps, without
-   time advancing and without any step of another dial — in particular it never waits for the semaphore for ever.
-   (Logical time only: how long those steps take on a real machine is the "scheduling slack" of the statement.) *)
+   passed, a dial that has not returned — whether it is about to try an address, waiting for the semaphore, or inside a
+   connect (this case rests on C41_connect_deadline) — can return ErrDialTimeout(upstream) by at most two of its own steps,
+   without time advancing and without any step of another dial: it returns by its deadline tick and never waits for the
+   semaphore for ever.  (Logical time only: how long those steps take on a real machine is the "scheduling slack".) *)
 Theorem C41_timeout_logical :
   (forall c tr s t a dl i0 tried at_, 0 < nad c -> dreach c tr s ->
      tp s t = TDone (XTimeout a) dl i0 tried at_ -> dl <= at_ /\ exists k, k < nad c /\ a = addr_of c i0 k)
   /\
-  (forall c s t dl i0 k, unfinished (tp s t) = Some (dl, i0, k) -> dl <= clock s ->
+  (forall c tr s t dl i0 k, 0 < nad c -> dreach c tr s -> unfinished (tp s t) = Some (dl, i0, k) -> dl <= clock s ->
      exists ls s' tried, drun c s ls = Some s' /\ (length ls <= 2)%nat /\
        tp s' t = TDone (XTimeout (addr_of c i0 k)) dl i0 tried (clock s) /\ clock s' = clock s).
 Proof. split; [exact timeout_not_early|exact timeout_on_own_steps]. Qed.
@@ -79,5 +88,14 @@ Example C41_ex_semaphore_timeout :
   match drun (mkCfg 1 1) dsinit [LStart 0 160; LDraw 0; LCheck 0; LAcqFast 0; LTick 15; LStart 1 60; LDraw 1; LCheck 1; LAcqFull 1;
                                  LTick 60; LSemTimeout 1; LTick 85; LConnDeadline 0] with
   | Some s => tp s 1 = TDone (XTimeout 0) 75 2 [] 75 /\ tp s 0 = TDone (XTimeout 0) 160 1 [0] 160 /\ sem s = 0
+  | None => False end.
+Proof. vm_compute. repeat split; reflexivity. Qed.
+
+(* non-vacuity: Concurrency 1; A (timeout 550) hangs and holds the slot; B (started at 25, timeout 600) waits 525 for it and
+   then connects: its connect is cut at 625 = B's deadline (not at 550 + 600), so B returns after 600, not after 1125 *)
+Example C41_ex_wait_then_connect :
+  match drun (mkCfg 1 1) dsinit [LStart 0 550; LDraw 0; LCheck 0; LAcqFast 0; LTick 25; LStart 1 600; LDraw 1; LCheck 1; LAcqFull 1;
+                                 LTick 525; LConnDeadline 0; LAcqSlow 1; LTick 75; LConnDeadline 1] with
+  | Some s => tp s 0 = TDone (XTimeout 0) 550 1 [0] 550 /\ tp s 1 = TDone (XTimeout 0) 625 2 [0] 625
   | None => False end.
 Proof. vm_compute. repeat split; reflexivity. Qed.
